@@ -87,13 +87,22 @@ def generate(gen, tier):
                 s2 = [A('transform'), s, 0, 1]
             else:
                 kids = [[A('child'), s, j] for j in range(len(children_of(t)))] if not isinstance(t, Atom) else []
-                coll = coll_of(t, cfg, kids) if not isinstance(t, Atom) and t[0] not in ('L', 'D', 'DD') else None
+                # (under a predicate the root itself may be a leaf: rebuilding it as a node is a different structure)
+                coll = coll_of(t, cfg, kids) if not isinstance(t, Atom) and t[0] not in ('L', 'D', 'DD') and cfg[3] == 0 else None
                 s2 = [A('fromcoll'), [A('cfg'), cfg[1], cfg[2], 0, cfg[4]], coll] if coll else [A('pickle'), s]
             kind = 'route:' + route
         lines = [op('eq', s, s2), op('hash_eq', s, s2), op('eq', s, s)]
         cases.append({'lines': lines, 'o': {'a': render(s), 'b': render(s2), 'class': kind,
                                             'tree': render(t)}})
     return cases
+
+
+def compare(line, impl_reply, model_reply):
+    """equal hash inputs in the model must give equal hashes; different hash inputs may still collide in CPython
+    (hash(-1) == hash(-2)), which the property allows"""
+    if line.startswith('(hash_eq ') and model_reply == '(ok 0)' and impl_reply in ('(ok 0)', '(ok 1)'):
+        return True
+    return impl_reply == model_reply
 
 
 def nontrivial(case):
